@@ -391,7 +391,7 @@ impl Director {
                 let mut w = self.world();
                 w.ev(format!("  t{} -> outer timeout elapsed", t));
                 let ok = match (w.tasks[t].kind.outer, w.tasks[t].started_at) {
-                    (Some(d), Some(s)) => now >= s + d,
+                    (Some(d), Some(s)) => s.checked_add(d).map(|dl| now >= dl).unwrap_or(false),
                     _ => false,
                 };
                 if !ok {
@@ -431,7 +431,7 @@ impl Director {
                             }
                         } else {
                             match (eff.wait, started) {
-                                (Some(d), Some(s)) if runtime && now >= s + d => {}
+                                (Some(d), Some(s)) if runtime && s.checked_add(d).map(|dl| now >= dl).unwrap_or(false) => {}
                                 _ => {
                                     bad = Some((&["C10", "C04"], "wait_timeout_early", format!("task {} got Timeout(Wait) before its deadline ({:?})", t, eff.wait)));
                                 }
@@ -446,7 +446,7 @@ impl Director {
                         let ok = matches!(last, Some((CallKind::Create, Outcome::Dropped)))
                             && runtime
                             && match (eff.create, call_started) {
-                                (Some(d), Some(s)) => now >= s + d,
+                                (Some(d), Some(s)) => s.checked_add(d).map(|dl| now >= dl).unwrap_or(false),
                                 _ => false,
                             };
                         if !ok {
@@ -913,7 +913,7 @@ impl Director {
                 );
             }
             if let (Some(d), Some(s), true) = (w.tasks[t].eff.wait, w.tasks[t].started_at, w.cfg.runtime) {
-                if now >= s + d {
+                if s.checked_add(d).map(|dl| now >= dl).unwrap_or(false) {
                     w.viol(&["C10"], "wait_deadline_ignored", format!("task {} still waits although its wait deadline ({:?}) has passed", t, d));
                 }
             }
